@@ -2,7 +2,6 @@ package props
 
 import (
 	"fmt"
-	"go/token"
 	"sort"
 	"strings"
 
@@ -159,12 +158,14 @@ func c04(r *core.Run) {
 				// publishing on a reply subject outside the funnel: must be a pre-response (payload starts with timeout:")
 				caller := c.Parent()
 				okPre := false
-				for _, b := range caller.Blocks {
-					for _, in := range b.Instrs {
-						if bo, ok := in.(*ssa.BinOp); ok && bo.Op == token.ADD {
-							if s, ok := core.ConstString(bo.X); ok && strings.HasPrefix(s, `timeout:"`) {
-								okPre = true
-							}
+				// the payload (possibly built by a helper) starts with the pre-response literal
+				rs := core.NewResolver()
+				pay := rs.R(c.Common().Args[len(c.Common().Args)-1])
+				if cv, ok := pay.(*ssa.Convert); ok {
+					pts := concatPartsWith(cv.X, rs)
+					if len(pts) > 0 {
+						if s, ok := core.ConstString(pts[0]); ok && strings.HasPrefix(s, `timeout:"`) {
+							okPre = true
 						}
 					}
 				}
